@@ -147,7 +147,10 @@ def make_value(eng, path, name, kind, tag, fi=None):
         obj = new_pregex(eng, path, name, tname, cls=base)
         if sub in ("AnyWordChar", "AnyButWordChar"):
             path.fields(obj)[f"_{sub}__is_global"] = z3.Bool(f"global_{name}_{obj.oid}")
-        path.fields(obj)["_Class__is_negated"] = z3.Bool(f"neg_{name}_{obj.oid}")
+        if sub is not None:
+            # invariant of these subclasses (their constructors fix the flag): Any and AnyWordChar are regular, AnyButWordChar negated
+            fixed_neg = (sub == "AnyButWordChar")
+        path.fields(obj)["_Class__is_negated"] = fixed_neg if sub is not None else z3.Bool(f"neg_{name}_{obj.oid}")
         path.fields(obj)["_Class__verbose"] = SStr([Atom(z3.String(f"verbose_{name}_{obj.oid}"), "opq", {"key": f"verbose_{name}"})])
         path.fields(obj)["_ghost_classarg"] = SStr([Atom(z3.String(f"classarg_{name}_{obj.oid}"), "opq", {"key": f"classarg_{name}"})])
         return obj
@@ -816,7 +819,20 @@ def ret_class_ctor(eng, path, env, fi, contract):
     path.fields(me)["_Class__is_negated"] = contract["neg"]
     path.fields(me)["_ghost_classarg"] = eval_spec(eng, contract["value"], env, path, fi)
     path.fields(me)["_Class__verbose"] = SStr([Atom(z3.String(f"verbose_ctor_{me.oid}"), "opq", {"key": f"verbose{me.oid}"})])
+    for fld, expr in (contract.get("fields") or {}).items():
+        path.fields(me)[fld] = eval_spec(eng, expr, env, path, fi)
     return None
+
+
+def ret_word_invert(eng, path, env, fi, contract):
+    """~AnyWordChar(g) / ~AnyButWordChar(g) used as callees: an instance of the other class with the same is_global"""
+    classes = eng.index.modules["pregex.core.classes"].classes
+    me = env["self"]
+    mine = "AnyButWordChar" if contract["other"] == "AnyWordChar" else "AnyWordChar"
+    obj = make_value(eng, path, "inverted", "classobj", "classobj:" + ("Word" if contract["other"] == "AnyWordChar" else "ButWord"))
+    path.fields(obj)[f"_{contract['other']}__is_global"] = path.getf(me, f"_{mine}__is_global")
+    path.fields(obj)["_ghost_classarg"] = "[a-zA-Z0-9_]" if contract["other"] == "AnyWordChar" else "[^a-zA-Z0-9_]"
+    return obj
 
 
 def sb_LISTV(eng, path, x):
@@ -1435,7 +1451,7 @@ def ret_opaque_init(eng, path, env, fi, contract):
     return None
 
 
-RETURNS = {"extract_classes": ret_extract_classes, "modify_classes": ret_modify_classes, "fresh_abs": ret_fresh_abs,
+RETURNS = {"word_invert": ret_word_invert, "extract_classes": ret_extract_classes, "modify_classes": ret_modify_classes, "fresh_abs": ret_fresh_abs,
            "class_wrapped": ret_class_wrapped, "class_op": ret_class_op, "class_ctor": ret_class_ctor, "class_init": ret_class_init, "opaque_class": ret_opaque_class, "opaque_other": ret_opaque_other, "opaque_init": ret_opaque_init, "wrapped_init": ret_wrapped_init, "split_range": ret_split_range, "none": ret_none, "infer": ret_infer, "initpregex": ret_initpregex, "setcompiled": ret_setcompiled, "to_pregex": ret_to_pregex, "pregex": ret_pregex, "expr": ret_expr, "newpregex": ret_newpregex}
 
 
